@@ -337,23 +337,23 @@ func (m *metaSchemas) resolveMetaRef(node map[string]interface{}) map[string]int
 // kindMeta is the one frozen table: Go kind -> meta-schema definition(s).
 // Reason per line: the definition's use site in schemas/v2/schema.json.
 var kindMeta = map[string][]string{
-	"Swagger":               {""},                   // the document root
-	"Info":                  {"info"},               // root.properties.info
-	"ContactInfo":           {"contact"},            // info.properties.contact
-	"License":               {"license"},            // info.properties.license
-	"Tag":                   {"tag"},                // root.properties.tags.items
-	"ExternalDocumentation": {"externalDocs"},       // root/operation/schema/tag .externalDocs
-	"XMLObject":             {"xml"},                // schema.properties.xml
-	"Operation":             {"operation"},          // pathItem.properties.get...
-	"PathItem":              {"pathItem"},           // paths.patternProperties["^/"]
-	"Paths":                 {"paths"},              // root.properties.paths
-	"Responses":             {"responses"},          // operation.properties.responses
-	"Response":              {"response"},           // responseValue.oneOf[0]
-	"Header":                {"header"},             // headers.additionalProperties
-	"Items":                 {"primitivesItems"},    // header/nonBody.items
-	"Parameter":             {"bodyParameter", "headerParameterSubSchema", "queryParameterSubSchema", "formDataParameterSubSchema", "pathParameterSubSchema"}, // parameter.oneOf
+	"Swagger":               {""},                                                                                                                                                           // the document root
+	"Info":                  {"info"},                                                                                                                                                       // root.properties.info
+	"ContactInfo":           {"contact"},                                                                                                                                                    // info.properties.contact
+	"License":               {"license"},                                                                                                                                                    // info.properties.license
+	"Tag":                   {"tag"},                                                                                                                                                        // root.properties.tags.items
+	"ExternalDocumentation": {"externalDocs"},                                                                                                                                               // root/operation/schema/tag .externalDocs
+	"XMLObject":             {"xml"},                                                                                                                                                        // schema.properties.xml
+	"Operation":             {"operation"},                                                                                                                                                  // pathItem.properties.get...
+	"PathItem":              {"pathItem"},                                                                                                                                                   // paths.patternProperties["^/"]
+	"Paths":                 {"paths"},                                                                                                                                                      // root.properties.paths
+	"Responses":             {"responses"},                                                                                                                                                  // operation.properties.responses
+	"Response":              {"response"},                                                                                                                                                   // responseValue.oneOf[0]
+	"Header":                {"header"},                                                                                                                                                     // headers.additionalProperties
+	"Items":                 {"primitivesItems"},                                                                                                                                            // header/nonBody.items
+	"Parameter":             {"bodyParameter", "headerParameterSubSchema", "queryParameterSubSchema", "formDataParameterSubSchema", "pathParameterSubSchema"},                               // parameter.oneOf
 	"SecurityScheme":        {"basicAuthenticationSecurity", "apiKeySecurity", "oauth2ImplicitSecurity", "oauth2PasswordSecurity", "oauth2ApplicationSecurity", "oauth2AccessCodeSecurity"}, // securityDefinitions.additionalProperties.oneOf
-	"Schema":                {"schema", "draft4"},   // definitions.additionalProperties + JSON-Schema draft-4 root
+	"Schema":                {"schema", "draft4"},                                                                                                                                           // definitions.additionalProperties + JSON-Schema draft-4 root
 }
 
 func sortedKeys[V any](m map[string]V) []string {
